@@ -37,6 +37,7 @@ def run(ctx):
                 ctx.broken.append(("correspondence", "c17_location_vs_http.Redirect",
                                    {"first_mismatch": first, "indices": (mism or "")[:500]}))
             for name, label, idxfile in (("c17_flow_mismatches", "login prompt of a protected page -> provider round trip: prompt kind and callback Location = model (force_redirect x request-target forms)", "CasesC17flow.idx"),
+                                         ("c17_page_mismatches", "hidden login_destination of the login page served for an unauthenticated GET = ensureHTMLSafeLoginDestination(page_destination)", "CasesC17page.idx"),
                                          ("c17_logout_mismatches", "logout Location = model logout_location", "CasesC17logout.idx")):
                 mm = res.get(name)
                 if mm == "[]":
